@@ -51,7 +51,7 @@ type TCPConn struct {
 
 	// Ledger: every byte this endpoint wrote / read, and endpoint events.
 	Wrote   []byte
-	SrvEnd  bool // this end is held by the code under test (accepted by its listener, or dialed by it)
+	SrvEnd  bool // this end was dialed by the code under test (through a dialer that the API lets an embedder replace)
 	NRead   int64
 	Events  []EndEvent
 	KeepLog bool
@@ -497,7 +497,6 @@ func (l *TCPListener) AcceptTCP() (*TCPConn, error) {
 			}
 			c := l.backlog[0]
 			l.backlog = l.backlog[1:]
-			c.SrvEnd = !l.Foreign
 			c.Rec.Accepted = true
 			l.Accepts++
 			simrt.Log("tcp:accept", int64(c.Rec.ID), 0)
